@@ -1377,6 +1377,22 @@ pub fn string_family() -> Vec<Prog> {
     text.push_str("    Process.println(Main.b(built == built))\n  }\n}\n");
     out.push(Prog { family: "string", shape: format!("runtime-built:{label}"), name: format!("string runtime-built {label}"), text });
   }
+  // size ladder: strings far longer than any buffer a runtime might reuse (powers of two, their
+  // neighbours, a jump of more than 2x between consecutive prints), ASCII and multi-byte
+  for (label, seed, extra) in [("ascii", "ab", "x"), ("two-byte", "\u{e9}", "\u{e9}"), ("four-byte", "\u{1f600}z", "!")] {
+    let mut text = String::from("class Main {\n  function dbl(s: Str, k: int): Str = if k == 0 { s } else { Main.dbl(s :: s, k - 1) }\n  function main(): unit = {\n");
+    text.push_str(&format!("    let unit1 = Main.dbl(\"{seed}\", \"0\".toInt());\n"));
+    for k in [3, 11, 12, 13, 16] {
+      text.push_str(&format!("    Process.println(Main.dbl(unit1, {k}));\n"));
+      text.push_str(&format!("    Process.println(Main.dbl(unit1, {k}) :: \"{extra}\");\n"));
+    }
+    text.push_str("    Process.println(\"short again\");\n");
+    text.push_str(&format!("    Process.println(Main.dbl(unit1, 12) :: Main.dbl(unit1, 10) :: \"{extra}\");\n"));
+    text.push_str("    Process.println(if Main.dbl(unit1, 13) == Main.dbl(unit1, 12) :: Main.dbl(unit1, 12) { \"equal\" } else { \"different\" })\n  }\n}\n");
+    out.push(Prog { family: "string", shape: format!("size-ladder:{label}"), name: format!("string size ladder {label}"), text });
+    let ptext = format!("class Main {{\n  function dbl(s: Str, k: int): Str = if k == 0 {{ s }} else {{ Main.dbl(s :: s, k - 1) }}\n  function main(): unit = {{\n    Process.println(\"before\");\n    let _ = Process.panic<int>(Main.dbl(\"{seed}\", \"14\".toInt()));\n  }}\n}}\n");
+    out.push(Prog { family: "string", shape: format!("long-panic-message:{label}"), name: format!("string long panic message {label}"), text: ptext });
+  }
   // fromInt / toInt over the alphabet
   let mut text = String::from("class Main {\n  function main(): unit = {\n");
   for i in INT_ALPHABET {
